@@ -8,7 +8,9 @@ import (
 	dtlsflight "github.com/pion/dtls/v3/internal/flight"
 	dtlshandshake "github.com/pion/dtls/v3/internal/handshake"
 	"github.com/pion/dtls/v3/internal/zzverif/lib/pbt"
+	"github.com/pion/dtls/v3/internal/zzverif/lib/ref"
 	"github.com/pion/dtls/v3/internal/zzverif/lib/scen"
+	"github.com/pion/dtls/v3/internal/zzverif/lib/vnet"
 	"github.com/pion/dtls/v3/pkg/protocol/handshake"
 )
 
@@ -20,6 +22,8 @@ type FinCase struct {
 	Rogue   string `json:"rogue"` // C | S
 	EMS     int    `json:"ems"`
 	Byte    int    `json:"byte"`
+	Ver     int    `json:"ver,omitempty"` // 0/12 or 13
+	CAuth   bool   `json:"cauth,omitempty"`
 }
 
 var finMu sync.Mutex
@@ -29,6 +33,11 @@ func runFin(c FinCase, r *pbt.R) {
 	defer finMu.Unlock()
 	attempt := func(forge bool) (okC, okS bool, applied bool, berr *pbt.BubbleError) {
 		armed := false
+		var gens []scen.Gen13
+		if c.Ver == 13 {
+			stop := scen.CaptureGens13(&gens)
+			defer stop()
+		}
 		dtlshandshake.VerifFlightHook = func(info dtlshandshake.VerifFlightInfo, pkts []*dtlsflight.Packet) []*dtlsflight.Packet {
 			if !forge || !armed || info.IsClient != (c.Rogue == "C") {
 				return pkts
@@ -48,7 +57,10 @@ func runFin(c FinCase, r *pbt.R) {
 		}
 		defer func() { dtlshandshake.VerifFlightHook = nil }()
 		berr = pbt.Bubble(func() {
-			cc := Case{Ver: 12, KX: c.KX, EMS: c.EMS, Resumed: c.Resumed}
+			cc := Case{Ver: 12, KX: c.KX, EMS: c.EMS, Resumed: c.Resumed, CAuth: c.CAuth}
+			if c.Ver == 13 {
+				cc.Ver = 13
+			}
 			cEP, sEP := epsFor(&cc)
 			env := scen.NewEnv()
 			if c.Resumed {
@@ -62,9 +74,52 @@ func runFin(c FinCase, r *pbt.R) {
 				}
 			}
 			armed = true
+			if c.Ver == 13 {
+				cEP.Suites, sEP.Suites = []uint16{0x1301}, []uint16{0x1301}
+			}
 			p := scen.NewPair(env, &cEP, &sEP)
 			defer p.Close()
 			p.Net.MaxEvents = 4000
+			if c.Ver == 13 && forge {
+				// DTLS 1.3 computes verify_data when the flight is committed, after the flight hook: the forgery is
+				// made on the wire instead, by a translator that holds the handshake traffic secrets (hook) - it
+				// opens the rogue's Finished record, flips one byte of verify_data and protects it again under the
+				// same keys and record number. What the honest side receives is a correctly protected, wrong Finished.
+				dec := ref.NewDecoder13(0x1301)
+				p.Net.Mangle = func(ev *vnet.Event) [][]byte {
+					if ev.From != c.Rogue || dec == nil {
+						return nil
+					}
+					for _, g := range scen.SnapshotGens13() {
+						dec.AddGen13(g.Epoch, g.Secret)
+					}
+					ds, ok := dec.Decode(ev.From, ev.Data, 0)
+					if !ok {
+						return nil
+					}
+					var out []byte
+					changed := false
+					for _, d := range ds {
+						if d.Kind == "unified" && d.OK && d.Type == scen.CTHandshake && len(d.Plain) > 12 && d.Plain[0] == scen.HTFinished {
+							pl := append([]byte(nil), d.Plain...)
+							pl[12+c.Byte%(len(pl)-12)] ^= 0x01
+							d.Plain = pl
+							if rec, err := dec.Reseal13(d, true, true); err == nil {
+								out = append(out, rec...)
+								changed, applied = true, true
+
+								continue
+							}
+						}
+						out = append(out, d.Raw...)
+					}
+					if !changed {
+						return nil
+					}
+
+					return [][]byte{out}
+				}
+			}
 			p.Handshake(3 * time.Minute)
 			okC, okS = p.C.OK(), p.S.OK()
 		})
@@ -96,16 +151,29 @@ func runFin(c FinCase, r *pbt.R) {
 	if c.Resumed {
 		mode = "resumed"
 	}
+	ver := "dtls12"
+	if c.Ver == 13 {
+		ver = "dtls13"
+	}
 	if honestOK {
-		r.Failf(fmt.Sprintf("C04|dtls12|%s-accepts-forged-finished|%s", who, mode), "the %s reports success although the peer's Finished verify_data was wrong in byte %d (kx=%s ems=%d)", who, c.Byte, c.KX, c.EMS)
+		r.Failf(fmt.Sprintf("C04|%s|%s-accepts-forged-finished|%s", ver, who, mode), "the %s reports success although the peer's Finished verify_data was wrong in byte %d (kx=%s ems=%d)", who, c.Byte, c.KX, c.EMS)
 
 		return
 	}
 	r.NonTrivial()
-	r.Class(who + "/" + mode)
+	r.Class(ver + "/" + who + "/" + mode)
 }
 
 func enumFin(_ string, yield func(FinCase) bool) {
+	for _, rogue := range []string{"C", "S"} {
+		for _, cauth := range []bool{false, true} {
+			for _, b := range []int{0, 1, 15, 31} {
+				if !yield(FinCase{KX: "cert", Rogue: rogue, Byte: b, Ver: 13, CAuth: cauth}) {
+					return
+				}
+			}
+		}
+	}
 	for _, kx := range []string{"cert", "psk", "epsk"} {
 		for _, resumed := range []bool{false, true} {
 			for _, rogue := range []string{"C", "S"} {
@@ -124,7 +192,7 @@ func enumFin(_ string, yield func(FinCase) bool) {
 func init() {
 	pbt.Register(pbt.Prop[FinCase]{
 		Name: "forged-finished", Enum: enumFin, Exhaustive: true, Run: runFin, Crashy: true,
-		Rule: "GRID (DTLS 1.2: key exchange x full/resumed x rogue role x EMS x each of the 12 verify_data bytes): an otherwise correct peer, steered through the flight hook, " +
+		Rule: "GRID (DTLS 1.2: key exchange x full/resumed x rogue role x EMS x each of the 12 verify_data bytes; DTLS 1.3: rogue role x client authentication x 4 byte positions): an otherwise correct peer, steered through the flight hook, " +
 			"sends a Finished whose verify_data is wrong in one byte; oracle: the honest side never reports success; control without the forgery succeeds",
 	})
 }
